@@ -73,6 +73,16 @@ func (vc *VC) execCall(fr *frame, n *Node, x *ssa.Call) {
 		recv := vc.value(fr, n, c.Value)
 		vc.safety(fr, n, "nil", "interface receiver is non-nil", x.Pos(), not(fmt.Sprintf("(= %s nil.iface)", recv.T)))
 		name := c.Method.Name()
+		if fr.fc != nil {
+			// clauses about dynamic calls name them invoke.<Method>; $arg0 is the receiver
+			iargs := append([]Val{recv}, args...)
+			if len(fr.fc.CallSites) > 0 {
+				vc.callSiteAsserts(fr, n, x, "invoke."+name, iargs)
+			}
+			if fr == vc.top {
+				vc.mustCallMark(fr, n, x, "invoke."+name, iargs)
+			}
+		}
 		if name == "Error" || name == "String" {
 			vc.bindResult(n, x, sig, vc.freshResults(n, x.Name(), sig))
 			return
